@@ -414,4 +414,67 @@ Section Colt.
           rewrite has_prefix_cons by (cbn [length] in Sz; lia).
           destruct (N.eqb (head d x) key), (has_prefix path (skipn (S d) x)); reflexivity.
   Qed.
+
+  (* ---------------------------------------------------------------- COLT histories *)
+  Definition cop_ok (o : cop) : Prop :=
+    match o with
+    | CInsert r => length r = a
+    | CGet path => length path <= a
+    | CAll => True
+    end.
+  Definition cinv (fs : list (nat * sght)) (all : bag) : Prop :=
+    map fst fs = seq 0 (S a) /\ fswf 0 fs /\ forall x, cnt (T fs) x = cnt all x.
+
+  Lemma cinv_len fs all : cinv fs all -> length fs = S a.
+  Proof. intros [E _]. rewrite <- (map_length fst), E, seq_length. reflexivity. Qed.
+
+  Lemma crun_spec ops : forall fs all,
+    cinv fs all -> Forall cop_ok ops -> cspec_holds all ops (crun_from k a fs ops) = true.
+  Proof.
+    induction ops as [|o ops IH]; intros fs all I F; [reflexivity|].
+    inversion F as [|? ? Ok F']; subst. pose proof (cinv_len fs all I) as Lf.
+    destruct I as (Sh & W & C). cbn [crun_from cspec_holds].
+    destruct o as [r|path|]; cbn [cstep cspec_step cop_ok] in *.
+    - (* insert into the first (leaf) trie *)
+      destruct fs as [|[h0 t0] rest]; [discriminate|]. cbn [map fst seq] in Sh.
+      inversion Sh as [[E0 Er]]. subst h0. inversion W as [|? ? W0 Wr]; subst. cbn [fst snd] in W0.
+      cbn [cans_holds andb]. apply IH; [|assumption]. split; [|split].
+      + cbn [map fst seq]. f_equal. exact Er.
+      + constructor; [apply sinsert_swf; assumption|exact Wr].
+      + intros x. rewrite T_cons. cbn [fst snd].
+        destruct (sinsert_cnt multi apos 0 0 t0 r (swf_good _ _ _ W0) Ok) as [_ Ci].
+        rewrite Ci, cnt_app, cnt_one, <- C, T_cons. cbn [fst snd]. lia.
+    - (* get along a path *)
+      assert (Sh' : map fst fs = seq 0 (length fs)) by (rewrite Lf; exact Sh).
+      pose proof (colt_get_spec path 0 fs Sh' W ltac:(lia)
+                    ltac:(destruct path; [left; reflexivity|right; cbn [length] in *; lia])) as G.
+      cbn zeta in G. destruct (colt_get_path k a 0 fs path) as [fs' obs]. cbn [fst snd] in G.
+      destruct G as (E' & W' & C' & Co). cbn [cans_holds].
+      assert (B : bag_eqb (concat obs) (filter (has_prefix path) all) = true).
+      { apply bag_eqb_spec. intros x. rewrite Co, cnt_filter, C. cbn [skipn]. reflexivity. }
+      rewrite B. cbn [andb]. apply IH; [|assumption]. split; [|split].
+      + rewrite E'. exact Sh.
+      + exact W'.
+      + intros x. rewrite C'. apply C.
+    - (* all rows *)
+      cbn [cans_holds].
+      assert (B : bag_eqb (concat (map (fun ht : nat * sght => sriter (fst ht) (snd ht)) fs)) all = true).
+      { apply bag_eqb_spec. intros x. rewrite <- flat_map_concat_map. apply C. }
+      rewrite B. cbn [andb]. apply IH; [|assumption]. split; [|split]; assumption.
+  Qed.
+
+  Lemma colt_new_inv : cinv (colt_new k a (S a)) [].
+  Proof.
+    unfold colt_new. split; [|split].
+    - rewrite map_map. cbn [fst]. apply map_id.
+    - apply Forall_forall. intros ht i. apply in_map_iff in i as [h [<- _]]. cbn [fst snd]. apply swf_sempty.
+    - intros x. cbn [cnt]. generalize (seq 0 (S a)). intros l. induction l as [|h l IHl]; [reflexivity|].
+      cbn [map]. rewrite T_cons. cbn [fst snd]. rewrite (sriter_sempty a multi h x), IHl. reflexivity.
+  Qed.
+
+  (* every COLT history (insert / get along any path / all) on the model answers as the plain
+     multiset of rows does: get returns exactly the rows with the prefix, nothing is lost *)
+  Theorem colt_history ops :
+    Forall cop_ok ops -> cspec_holds [] ops (cmodel_run k a (S a) ops) = true.
+  Proof. intros F. unfold cmodel_run. apply crun_spec; [apply colt_new_inv|exact F]. Qed.
 End Colt.
